@@ -4,8 +4,14 @@ use chrono::{Duration, Local, NaiveDate, NaiveDateTime, TimeZone, Timelike};
 use chrono_english::{parse_date_string, Dialect};
 use regex::Regex;
 
+/// A date in the documented notation, with an optional time of day, as the whole text.
 static DATE_REGEX: LazyLock<Regex> = LazyLock::new(|| {
-    Regex::new("([0-9]{4})(-|:)([0-9]{1,2})(-|:)([0-9]{1,2}) ?([0-9]{1,2})?:?([0-9]{1,2})?:?([0-9]{1,2})?").unwrap()
+    Regex::new("^([0-9]{4})(-|:)([0-9]{1,2})(-|:)([0-9]{1,2})(?:(?: +|T)([0-9]{1,2})(?::([0-9]{1,2})(?::([0-9]{1,2})(?:[.][0-9]+)?)?)?)?$").unwrap()
+});
+
+/// A date somewhere inside a text (a file name): not in the middle of a longer run of digits.
+static DATE_INSIDE_REGEX: LazyLock<Regex> = LazyLock::new(|| {
+    Regex::new("(?:^|[^0-9])([0-9]{4})(-|:)([0-9]{1,2})(-|:)([0-9]{1,2})").unwrap()
 });
 
 /// The local wall-clock time of a file time stamp, if it can be expressed as a date at all.
@@ -41,21 +47,71 @@ pub fn local_today() -> NaiveDate {
 /// The calendar date written inside a text, whatever follows it (`2024-02-29 1080p.mkv`):
 /// for the functions that extract a part of the date. Other spellings go through `parse_datetime`.
 pub fn parse_date(s: &str) -> Option<NaiveDate> {
-    if let Ok((start, _)) = parse_datetime(s) {
-        return Some(start.date());
+    // the whole text is a date (also a printed one, with a year of more than four digits)
+    if let Some(written) = parse_written_date(s) {
+        return written.ok().map(|(start, _)| start.date());
+    }
+
+    if let Some(cap) = DATE_INSIDE_REGEX.captures(s) {
+        // digits that merely follow the date are no time of day; what is written as one (`24:00`) is,
+        // and is checked
+        let rest = s[cap.get(5)?.end()..].as_bytes();
+        let rest = rest.strip_prefix(b" ").unwrap_or(rest);
+        let digits = rest.iter().take_while(|b| b.is_ascii_digit()).count();
+        if (1..=2).contains(&digits) && rest.get(digits) == Some(&b':') {
+            let time: String = String::from_utf8_lossy(rest)
+                .chars()
+                .take_while(|c| c.is_ascii_digit() || *c == ':')
+                .collect();
+            let date_and_time = format!("{} {}", &s[cap.get(1)?.start()..cap.get(5)?.end()], time.trim_end_matches(':'));
+            return match parse_written_date(&date_and_time) {
+                Some(Ok((start, _))) => Some(start.date()),
+                _ => None,
+            };
+        }
+
+        return NaiveDate::from_ymd_opt(cap[1].parse().ok()?, cap[3].parse().ok()?, cap[5].parse().ok()?);
+    }
+
+    parse_datetime(s).ok().map(|(start, _)| start.date())
+}
+
+/// The interval that a date in the documented notation covers, if the whole text is such a date
+/// (`Err` if it names a day or a time of day that does not exist).
+fn parse_written_date(s: &str) -> Option<Result<(NaiveDateTime, NaiveDateTime), String>> {
+    // a printed time stamp, whatever its year
+    if let Ok(instant) = NaiveDateTime::parse_from_str(s, "%Y-%m-%d %H:%M:%S") {
+        return Some(Ok((instant, instant)));
     }
 
     let cap = DATE_REGEX.captures(s)?;
 
-    // digits that merely follow the date are no time of day; what is written as one (`24:00`) is, and is wrong
-    let rest = s[cap.get(5)?.end()..].as_bytes();
-    let rest = rest.strip_prefix(b" ").unwrap_or(rest);
-    let digits = rest.iter().take_while(|b| b.is_ascii_digit()).count();
-    if (1..=2).contains(&digits) && rest.get(digits) == Some(&b':') {
-        return None;
-    }
+    let year: i32 = cap[1].parse().ok()?;
+    let month: u32 = cap[3].parse().ok()?;
+    let day: u32 = cap[5].parse().ok()?;
 
-    NaiveDate::from_ymd_opt(cap[1].parse().ok()?, cap[3].parse().ok()?, cap[5].parse().ok()?)
+    let part = |group: usize, last: u32| match cap.get(group) {
+        Some(value) => value.as_str().parse::<u32>().map(|value| (value, value)).unwrap_or((u32::MAX, u32::MAX)),
+        None => (0, last),
+    };
+    let (hour_start, hour_finish) = part(6, 23);
+    let (min_start, min_finish) = part(7, 59);
+    let (sec_start, sec_finish) = part(8, 59);
+
+    // the bounds are local wall-clock times: they do not depend on whether midnight of
+    // that day exists (or exists twice) in the local time zone
+    Some(match NaiveDate::from_ymd_opt(year, month, day) {
+        Some(date) => {
+            let start = date.and_hms_opt(hour_start, min_start, sec_start);
+            let finish = date.and_hms_opt(hour_finish, min_finish, sec_finish);
+
+            match (start, finish) {
+                (Some(start), Some(finish)) => Ok((start, finish)),
+                _ => Err("Error parsing date/time value: ".to_string() + s),
+            }
+        }
+        _ => Err("Error converting date/time to local: ".to_string() + s),
+    })
 }
 
 pub fn parse_datetime(s: &str) -> Result<(NaiveDateTime, NaiveDateTime), String> {
@@ -75,66 +131,8 @@ pub fn parse_datetime(s: &str) -> Result<(NaiveDateTime, NaiveDateTime), String>
         return Ok((start, finish));
     }
 
-    match DATE_REGEX.captures(s) {
-        Some(cap) => {
-            let year: i32 = cap[1].parse().unwrap();
-            let month: u32 = cap[3].parse().unwrap();
-            let day: u32 = cap[5].parse().unwrap();
-
-            let hour_start: u32;
-            let hour_finish: u32;
-            match cap.get(6) {
-                Some(val) => {
-                    hour_start = val.as_str().parse().unwrap();
-                    hour_finish = hour_start;
-                }
-                None => {
-                    hour_start = 0;
-                    hour_finish = 23;
-                }
-            }
-
-            let min_start: u32;
-            let min_finish: u32;
-            match cap.get(7) {
-                Some(val) => {
-                    min_start = val.as_str().parse().unwrap();
-                    min_finish = min_start;
-                }
-                None => {
-                    min_start = 0;
-                    min_finish = 59;
-                }
-            }
-
-            let sec_start: u32;
-            let sec_finish: u32;
-            match cap.get(8) {
-                Some(val) => {
-                    sec_start = val.as_str().parse().unwrap();
-                    sec_finish = sec_start;
-                }
-                None => {
-                    sec_start = 0;
-                    sec_finish = 59;
-                }
-            }
-
-            // the bounds are local wall-clock times: they do not depend on whether midnight of
-            // that day exists (or exists twice) in the local time zone
-            match NaiveDate::from_ymd_opt(year, month, day) {
-                Some(date) => {
-                    let start = date.and_hms_opt(hour_start, min_start, sec_start);
-                    let finish = date.and_hms_opt(hour_finish, min_finish, sec_finish);
-
-                    match (start, finish) {
-                        (Some(start), Some(finish)) => Ok((start, finish)),
-                        _ => Err("Error parsing date/time value: ".to_string() + s),
-                    }
-                }
-                _ => Err("Error converting date/time to local: ".to_string() + s),
-            }
-        }
+    match parse_written_date(s) {
+        Some(written) => written,
         None => {
             // a signed number is an offset in days, however many digits it has
             let is_day_offset = s.len() >= 2
